@@ -454,7 +454,7 @@ def clock_rerun_worker(args):
                        ('time %d on "A" off "B" time %d on "C"' % (S + 1, S + 2), [1], None),
                        ('time %d repeat 2 begin on all end' % (S + 1), [1], [[1], [1, 1]])][args['which']]
     if due is None:
-        sids, due = [1, 2], [[1], [1], [1, 2]]
+        sids, due = [1, 2], [[1], [1, 1], [1, 1, 2]]          # every command waits for the time register in force: `off "B"` waits time_1 again
     res = c10.vm_worker({'mode': 'logical', 'text': text, 'sids': sids, 'due': due, 'tag': 'run %d of the same job' % args['runs'], 'runs': args['runs'], 'tick_bound': 3, 'max_delay': 0.4,
                          'max_paths': args['max_paths'], 'budget_s': args['budget_s']})
     res.sites = {('clock-rerun' if x == 'vm-timeline' else x) for x in res.sites}
